@@ -576,6 +576,12 @@ def check_one(rank_ids, nest, natural, cont, desc, imposed, recorder, touch=()):
                             f"{len(dec.fibers[r])} fibers")
     if ot[0][0].getPayloads() != [ot[1][0]] or ot[0][0].getPayloads()[0] is not ot[1][0]:
         raise Violation("fibers", f"{tag}: root handle does not hold the rank-0 fiber")
+    # the root handle is the encoded object that owns payloads_root: its size is what that array stores
+    ot[0][0].cache = StubCache()
+    rsize = ot[0][0].getSize()
+    if type(rsize) is not int or rsize != len(output["payloads_root"]):
+        raise Violation("getSize", f"{tag}: root handle reports getSize() = {rsize!r}, payloads_root stores "
+                        f"{len(output['payloads_root'])} word(s)")
     nxt = [0] * (len(desc) + 1)
     kids_of = {}
     for r in range(len(desc)):
